@@ -104,18 +104,6 @@ theorem C05_priority_users (s : Sched) (t x : Xfer) (ht : t ∈ s.select) (hx : 
 
 /-! ## all schedules -/
 
-/-- symmetric reading of a `Pairwise` fact -/
-theorem forall_of_pairwise {α} {R : α → α → Prop} (hsymm : ∀ a b, R a b → R b a) :
-    ∀ {l : List α}, l.Pairwise R → ∀ a ∈ l, ∀ b ∈ l, a ≠ b → R a b
-  | [], _, a, ha, _, _, _ => by simp at ha
-  | x :: l, h, a, ha, b, hb, hne => by
-    rw [pairwise_cons] at h
-    rcases mem_cons.mp ha with rfl | ha' <;> rcases mem_cons.mp hb with rfl | hb'
-    · exact absurd rfl hne
-    · exact h.1 b hb'
-    · exact hsymm _ _ (h.1 a ha')
-    · exact forall_of_pairwise hsymm h.2 a ha' b hb' hne
-
 /-- In every reachable state no user has two uploads that are initialising / uploading. -/
 theorem C05_one_per_user (n : Nat) (ops : List Op) (a b : Xfer)
     (ha : a ∈ (runFrom { slots := n } ops).xs) (hb : b ∈ (runFrom { slots := n } ops).xs) (hne : a ≠ b)
